@@ -109,6 +109,12 @@ CHECKS["C14"] = dict(engine="hyperscan", design="4 C14", technique="TLA+ model c
          "cache directory and hyperscan.loadb's reaction to each fault class is compared with the model's environment assumption. Generated legal text with multi-byte characters before / after / between / inside "
          "citations is run through both tokenizers and TLC judges subset, genuineness of extra candidates and agreement of get_citations."),
    note="Trusted: TLC + Json; the domain guard of C14 (no non-ASCII whitespace / digits / case variants) holds by construction of the texts; 'genuine' witnesses are computed by re-matching on the full text; cache replay uses a 45-extractor list.")
+CHECKS["C19"] = dict(engine="markup", design="4 C19", technique="TLA+ model checking of Markup.tla (reference offsets through the markup->plain translator) + TLC-judged comparison of markup mode with plain mode on generated markup",
+   text=("Markup.tla models the cleaned text, the markup->plain SpanUpdater script (one '-' per tag) and the reference finder's offset arithmetic (bisect_left for starts, bisect_right for ends); TLC checks for every markup "
+         "of <= 6 tokens that the computed reference span is exactly where the name stands in the cleaned text, inside the text and inside its full span. Generated marked-up legal text (italic / emphasis around party "
+         "names with and without trailing punctuation, paragraphs, entities, whitespace, ordinary-word party names emphasised later in lower case, parallel citations) x three step lists containing html is extracted in "
+         "markup mode and in plain mode on the cleaned text; TLC judges: non-reference citations identical, reference offsets valid, each reference after a full case citation one of whose valid names occurs in its text."),
+   note="Trusted: TLC + Json; the name-validity rule is transcribed in the harness; the witness (which full citation / name / offset) is searched by the harness and verified by TLC.")
 NA_REASON = "check not built yet (work in progress; see DESIGN.md section 10 build order)"
 checks = []
 for p in props:
@@ -148,6 +154,8 @@ m = {"version": 1,
               "serves_properties": ["C04"], "kind_free_text": "session composition spec, TLC model checking, TLC trace validation of recorded sessions"},
              {"name": "hyperscan", "path": "spec/HsOffsets.tla spec/HsCache.tla spec/MC_HsOffsets.tla spec/MC_HsCache.tla spec/Trace_Hs.tla harness/chk_hs.py harness/drv_hs.py",
               "serves_properties": ["C14"], "kind_free_text": "TLA+ specs, TLC model checking, fault replay on real cache files, TLC-judged differential candidates"},
+             {"name": "markup", "path": "spec/Markup.tla spec/MC_Markup.tla spec/Trace_Markup.tla harness/chk_markup.py harness/drv_extract.py",
+              "serves_properties": ["C19"], "kind_free_text": "TLA+ spec, TLC model checking, TLC-judged markup-vs-plain comparison"},
              {"name": "annotate", "path": "spec/Annotate.tla spec/SpanUpdater.tla spec/MC_Annotate.tla spec/MC_SpanUpdater.tla spec/Trace_Annotate.tla spec/Trace_SpanUpdater.tla harness/chk_annotate.py harness/drv_annotate.py",
               "serves_properties": ["C09", "C10", "C11"], "kind_free_text": "TLA+ spec, TLC model checking, configuration replay, TLC trace validation"}],
  "checks": checks,
